@@ -5,7 +5,8 @@
    (n - 1/2 - 1e-6 <= E/(L a) <= n + 1/2 + 1e-6), an explicit n must be taken over literally.
    Cells whose back-rotated centre lies within 1e-6 cell of the outer box of the interpolator
    (where the result jumps from the edge value to the zero fill) may carry either value. *)
-From DF Require Import Prelude Rotator.
+From DF Require Import Prelude.
+From DF Require Export Rotator.
 Open Scope Q_scope.
 
 Definition rel_tol : Q := 1 # 1000000000.            (* 1e-9 *)
